@@ -84,7 +84,27 @@ def ind2save_cases(repo, env, facts, ratio: Poly, etype: str):
             raise AnalysisError(f"_ind2save ({case}, {etype}): {ex}")
         a, b = ev.env.get("ind2save[0]"), ev.env.get("ind2save[1]")
         if a is None or b is None:
-            raise AnalysisError("_ind2save: kept range is not held in ind2save[0], ind2save[1]")
+            # the kept range as it is applied: chunk[:, slice(a, b)] / chunk[:, a:b] / chunk[:, keep] with keep = slice(a, b)
+            a = b = None
+            du_ = DefUse(fi.node)
+            data = [p_ for p_ in fi.params if p_ != "self"][0]
+            for sub_ in find(fi.node, ast.Subscript, nested=False):
+                if loc_name(sub_.value) == data and isinstance(sub_.slice, ast.Tuple) and len(sub_.slice.elts) == 2:
+                    k_ = sub_.slice.elts[1]
+                    k_ = expand_name(du_, k_, sub_) if isinstance(k_, ast.Name) else k_
+                    lo_ = hi_ = None
+                    if isinstance(k_, ast.Call) and call_name(k_) == "slice" and len(k_.args) == 2:
+                        lo_, hi_ = k_.args
+                    elif isinstance(k_, ast.Slice) and k_.step is None:
+                        lo_, hi_ = k_.lower, k_.upper
+                    if lo_ is not None and hi_ is not None:
+                        try:
+                            a, b = ev.ev(lo_), ev.ev(hi_)
+                        except Undecided as ex:
+                            raise AnalysisError(f"_ind2save ({case}, {etype}): kept range not evaluable: {ex}")
+                        break
+        if a is None or b is None:
+            raise AnalysisError("_ind2save: kept range is not held in ind2save[0], ind2save[1] nor applied as chunk[:, a:b]")
         out[case] = (a, b)
     return fi, out
 
